@@ -76,7 +76,7 @@ def run(ctx, chk):
             chk.ob('C16.V3', 'open:record-offset-is-header-size', arith.const_num(off) == H, row['adds'][0]['site'][2],
                    'record pointer offset %s (header is %d bytes)' % (fmt(off), H))
     # ---- magic constant
-    magic = fb.const('shm_header::SHM_MAGIC')
+    magic = fb.const('::SHM_MAGIC')
     if magic and 'bytes' in magic:
         raw = bytes.fromhex(magic['bytes'])
         words = [int.from_bytes(raw[i:i + 4], 'little') for i in (0, 4)]
